@@ -385,7 +385,7 @@ def c10(tier, seed):
         # a flag that is a DAG argument is evaluated for every call: IF a setup node carrying such a flag can be built at all, the
         # second call does not run on the first call's flag
         # wide last levels (8 .. 18 independent flagged leaves) with max_concurrency up to 16: every flag is still judged
-        + diff_jobs("C10", tier, seed + 5, dict(flags=0.7, nest=0.1, nest_flag=0.3, max_stmts=18, ops=0.02, kwargs=0.2, mc_max=16), 1, scale=0.3, nj_scale=0.5)
+        + diff_jobs("C10", tier, seed + 5, dict(flags=0.7, nest=0.1, nest_flag=0.3, max_stmts=18, ops=0.02, kwargs=0.2, mc_max=16, flat=0.4), 1, scale=0.3, nj_scale=0.5)
         + [dict(kind="comp19", pid="C10", n_cases=(600 if tier == "quick" else 2500),
                 only=["composed_dag_ran_more_or_less_than_the_outputs_need", "composed_value_differs_from_substituted_pipeline"],
                 **_seeds(seed + 49, k)) for k in range(2 if tier == "quick" else 6)]
